@@ -24,7 +24,15 @@ def lit(n):
 
 def src_for(op, a, b, form):
     if op == "neg":
+        if form == 2:
+            return f"Z := Int.bear; -(Z.new({lit(a)}))"
         return f"x := {lit(a)}; -x" if form else f"-({lit(a)})"
+    if form == 3:      # typed descendants of Int: the same 64-bit integers with another prototype
+        return f"Z := Int.bear; Z.new({lit(a)}) {op} Z.new({lit(b)})"
+    if form == 4:
+        return f"Z := Int.bear; {lit(a)} {op} Z.new({lit(b)})"
+    if form == 5:      # a zero that is computed from typed operands
+        return f"Z := Int.bear; {lit(a)} {op} (Z.new(5) - Z.new(5))"
     if form == 1:
         return f"x := {lit(a)}; y := {lit(b)}; x {op} y"
     if form == 2:
@@ -48,7 +56,7 @@ def decode(end):
         return "err", 0, end.split(":")[1], 0, 0
     if not end.startswith("val:"):
         return "other", 0, "", 0, 0
-    t = end[4:]
+    t = re.sub(r"\^\{\}\^Int$", "", end[4:])       # a result that inherits the typed left operand's prototype (Z := Int.bear) prints as <n>^{}^Int
     if re.fullmatch(r"-?\d+", t):
         return "int", int(t), "", 0, 0
     if re.fullmatch(r"-?\d+\.\d+", t):
@@ -114,7 +122,9 @@ def run():
 
     def add(op, a, b, expect=None):
         rid = str(len(reqs))
-        form = rng.choice([0, 0, 0, 1, 2]) if op != "neg" else rng.choice([0, 1])
+        form = rng.choice([0, 0, 0, 0, 1, 2, 3, 4]) if op != "neg" else rng.choice([0, 0, 1, 2])
+        if b == 0 and op != "neg" and rng.random() < 0.3:
+            form = rng.choice([3, 4, 5])
         src = src_for(op, a, b, form)
         if rng.random() < 0.12:
             # history: a descendant of Int (or Float) that overrides this very operator was used earlier in the process
